@@ -87,6 +87,21 @@ impl MulticastGroups {
     }
 }
 
+/// Verification hook, compiled only with `--cfg turmoil_verif`.
+#[allow(unexpected_cfgs)]
+mod verif_hooks {
+    #[cfg(turmoil_verif)]
+    impl super::MulticastGroups {
+        /// Number of (group, member) entries whose member lives on `host`.
+        pub(crate) fn verif_memberships_of(&self, host: std::net::IpAddr) -> usize {
+            self.0
+                .values()
+                .map(|members| members.iter().filter(|m| m.ip() == host).count())
+                .sum()
+        }
+    }
+}
+
 struct Rx {
     recv: mpsc::Receiver<(Datagram, SocketAddr)>,
     /// A buffered received message.
